@@ -468,6 +468,7 @@ def gen_misc(rng, n):
     for _ in range(n):
         yield {"model": rng.choice(MODELS), "a": ball_pt(rng), "b": ball_pt(rng), "pts": [ball_pt(rng) for _ in range(rng.choice([1, 3]))],
                "poly": [ball_pt(rng) for _ in range(rng.choice([3, 4, 6, 8]))], "transform": rand_iso(rng) if rng.random() < 0.6 else None,
+               "nonaff": (lambda nv_: {"n": nv_, "m": rng.randint(1, nv_ - 1), "start": rng.randrange(nv_), "seed": rng.randrange(10 ** 6)})(rng.choice([3, 4, 5, 6, 8])),
                "horo_angle": rng.uniform(-3, 3), "chart": rng.choice([0, 1, 2]), "sign": rng.choice([-1.0, 1.0]), "tsign": rng.choice([-1.0, 1.0]),
                "ptrans": [[rng.gauss(0, 1) for _ in range(3)] for _ in range(3)],
                "ppoly": [[rng.choice([-1, 1]) * rng.uniform(0.5, 2) if j == 0 else rng.uniform(-2, 2) for j in range(3)] for _ in range(4)]}
@@ -555,6 +556,29 @@ def run_misc(inp):
                 out["proj_rejected"] = "GeometryError"
         finally:
             plt.close(pd.fig)
+    # G14: polygons with 3, 4, 5, 6, 8 vertices that cross the line at infinity of the chart (m consecutive vertices with
+    # negative first coordinate, starting anywhere in the cyclic order), drawn with assume_affine=False; and the same
+    # vertex counts inside the chart in both modes
+    na = inp.get("nonaff")
+    if na:
+        rs = np.random.default_rng(na["seed"])
+        nv_ = na["n"]
+        ang = np.sort(rs.uniform(0, 2 * np.pi, nv_))
+        affv = np.stack([1.5 * np.cos(ang), 1.5 * np.sin(ang)], -1) + rs.uniform(-0.2, 0.2, (nv_, 2))
+        sign = np.ones(nv_)
+        sign[[(na["start"] + i_) % nv_ for i_ in range(na["m"])]] = -1.0
+        # vertices with sign -1 lie "behind" the line at infinity: affine position -affv (so that the edges really cross infinity)
+        hom_c = np.concatenate([sign[:, None], affv], -1) * rs.uniform(0.5, 2.0, (nv_, 1))
+        hom_in = np.concatenate([np.ones((nv_, 1)), affv], -1) * rs.uniform(0.5, 2.0, (nv_, 1)) * rs.choice([-1.0, 1.0])
+        for tag_, hom_, aff_ in (("nonaff_crossing", hom_c, False), ("nonaff_inside", hom_in, False), ("affine_inside", hom_in, True)):
+            pd3 = D.ProjectiveDrawing(chart_index=0)
+            try:
+                pd3.draw_polygon(P.Polygon(hom_), assume_affine=aff_)
+                polys = [np.asarray(q.vertices, float).tolist() for c in pd3.ax.collections for q in c.get_paths() if len(q.vertices)]
+                polys += [np.asarray(q.get_xy(), float).tolist() for q in pd3.ax.patches]
+                out[tag_] = {"polys": polys, "want": (hom_[:, 1:] / hom_[:, :1]).tolist(), "diam": float(pd3.view_diam())}
+            finally:
+                plt.close(pd3.fig)
     # a polygon inside the standard chart, representatives of one (random) sign, drawn without assuming it is affine
     sgn = inp.get("sign", 1.0)
     hom = np.array([[sgn * abs(v[0])] + [sgn * abs(v[0]) * t for t in v[1:]] for v in inp["ppoly"]])
@@ -659,6 +683,27 @@ def judge_misc(inp, obs, lr):
     for nm, what in obs["rejected"]:
         if what != "GeometryError":
             return {"expected": "GeometryError for %s" % nm, "observed": what, "tags": dict(tags, what="wrong dimension", obj=nm)}
+    for tag_ in ("nonaff_crossing", "nonaff_inside", "affine_inside"):
+        if tag_ not in obs:
+            continue
+        want = np.array(obs[tag_]["want"])
+        polys = [np.array(q_) for q_ in obs[tag_]["polys"]]
+        near_ = [[v_ for v_ in q_ if np.linalg.norm(v_) < 0.5 * obs[tag_]["diam"]] for q_ in polys]
+        # (closed paths repeat their first vertex)
+        near_ = [q_[:-1] if len(q_) > 1 and np.allclose(q_[0], q_[-1]) else q_ for q_ in near_]
+        flat = [v_ for q_ in near_ for v_ in q_]
+        ok_ = len(flat) == len(want) and all(sum(np.linalg.norm(v_ - w_) < 1e-7 * (1 + np.linalg.norm(w_)) for v_ in flat) == 1 for w_ in want)
+        if ok_:
+            # within each drawn piece the polygon's vertices keep their cyclic order
+            for q_ in near_:
+                idx = [int(np.argmin([np.linalg.norm(v_ - w_) for w_ in want])) for v_ in q_]
+                n_ = len(want)
+                steps_ = [(b_ - a_) % n_ for a_, b_ in zip(idx, idx[1:])]
+                if not (all(s_ == 1 for s_ in steps_) or all(s_ == n_ - 1 for s_ in steps_)):
+                    ok_ = False
+        if not ok_ or (tag_ == "nonaff_crossing" and len(polys) != 2) or (tag_ != "nonaff_crossing" and len(polys) != 1):
+            return {"expected": {"every vertex exactly once, in cyclic order, in %s piece(s)" % ("two" if tag_ == "nonaff_crossing" else "one"): want.tolist()},
+                    "observed": [q_.tolist() for q_ in polys], "tags": {"what": "projective polygon " + tag_, "n": len(want)}}
     if "nonaffine_flag" in obs:
         hom = np.array([[abs(v[0])] + [abs(v[0]) * t for t in v[1:]] for v in inp["ppoly"]])
         aff = hom[:, 1:] / hom[:, :1] * inp.get("tsign", 1.0) ** -1 if False else (hom[:, 1:] / hom[:, :1]) / inp.get("tsign", 1.0)
